@@ -3,38 +3,34 @@
 
   Model     `Schema.Rules.check`     (transliteration of schema_parser / sbe_schema_validator /
                                       sbe_schema_cpp_validator, first diagnostic = class + entity)
-  Spec      `Spec.Rules.violations`  (every broken rule with its entity, entity by entity, no order)
+  Spec      `Spec.Rules.violations`  (every broken rule with its entity, entity by entity, no order;
+                                      `Rules s` = there is none)
   Tie       vlib/props/c08.py        (real sbeppc vs model vs spec on generated schemas and on every
                                       single-rule edit of them at every applicable position)
 
-  What is proved here, for ALL schemas (no bound on sizes, nesting, number of types):
+  Proved for ALL schemas (no bound on sizes, nesting, number of types):
 
-  * `rejects_every_broken_schema`   a schema that breaks any rule sbeppc has a diagnostic for is
-                                    rejected by the model (offsets, blockLength, literals, choice
-                                    indices, unknown / wrong-kind / cyclic references, arrays, level
-                                    headers, names, keywords, duplicates, numeric attributes) —
-                                    under `FpAgree` (floating-point literal acceptance, differential
-                                    only) and `CharEnumsPlain` (finding C08-char-enum-valueRef);
+  * `C08_full`                      accepted ⇔ `Rules s` — both directions, every rule family: offsets,
+                                    blockLength, literals, choice indices, unknown / wrong-kind / cyclic
+                                    references, arrays, level headers incl. the `<data>` header layout,
+                                    names, keywords, duplicates, numeric attributes;
+    `rejects_every_broken_schema`, `accepts_every_rule_abiding_schema`   its two halves;
+  * `check_error_sound`             the class and the entity of the reported diagnostic are a rule of the
+                                    specification broken at that entity (all classes, all phases);
+    `check_error_sound_hash_order`  so is every member of the set the `unordered_map` order picks from;
   * `cycle_detection_complete`      the in-progress set rejects every reference cycle, reports
                                     `cyclicReference` only at an encoding that really is on a cycle,
                                     and never runs out of fuel;
-  * `accepted_no_overlap`, `accepted_members_in_block`
-                                    what acceptance buys (from `Schema.resolve_wf`);
-  * `parseNum_spec`                 `from_chars` = the decimal-literal specification;
-  * `C08_full_false`                the full-strength statement is FALSE on the current code, with
-                                    two kernel-checked witnesses (findings (a) and (b)).
-
-  * `check_ok_iff_rules_partial`    accepted ⇔ no enforced rule broken (both directions), and
-    `check_ok_iff_rules_partial_data` accepted ⇔ `Rules s` for schemas whose data headers have the
-                                    layout the runtime assumes;
-  * `check_error_sound`             the class and the entity of the reported diagnostic are a rule of the
-                                    specification broken at that entity (all classes, all phases), and
-    `check_error_sound_hash_order`  so is every member of the set the `unordered_map` order picks from.
+  * `accepted_no_overlap`, `accepted_members_in_block`   what acceptance buys (from `Schema.resolve_wf`);
+  * `parseNum_spec`                 `from_chars` = the decimal-literal specification.
 
   Hypotheses that remain, by name: `FpAgree` (acceptance of floating-point literals: model =
-  specification; checked differentially on a boundary grid only), `CharEnumsPlain` (excludes
-  finding (a)), `NoTopLevelRef` (shape of the AST the parser produces), and for `Rules` instead of
-  `enforcedViolations` the absence of `dataHeaderLayout` violations (finding (b)).
+  specification; kernel-checked on a boundary grid, otherwise differential) and `NoTopLevelRef`
+  (shape of the AST the parser produces: `<ref>` only inside composites).
+
+  History: until /repo commits d749b7f, 57db3e7, 5d34b3a the full statement was false (kept then as
+  `C08_full_false` with two kernel-checked witnesses); the witnesses are kept below as regression
+  examples of the fixed behaviour.
 -/
 import Sbepp.Lemmas.Rules
 import Sbepp.Lemmas.RulesAccept
@@ -42,7 +38,7 @@ import Sbepp.Lemmas.RulesSound2
 
 namespace Sbepp.Properties.C08
 open Sbepp Sbepp.Schema Sbepp.Schema.Rules
-open Sbepp.Spec.Rules (DiagClass Path Rules violations enforcedViolations)
+open Sbepp.Spec.Rules (DiagClass Path Rules violations)
 
 /-- **parseNum_spec**: the model of `std::from_chars` (base 10) returns `v` exactly when
     the string is a decimal literal of `v` — an optional `-` (signed types only), one or
@@ -52,75 +48,35 @@ theorem parseNum_spec (cs : List Char) (bits : Nat) (signed : Bool) (v : Int) :
     parseNumL cs bits signed = some v ↔ Spec.Rules.IsIntLiteral signed cs v ∧ InRange bits signed v :=
   parseNumL_spec cs bits signed v
 
-/-- **rejects_every_broken_schema**: if a schema breaks any rule that sbeppc has a
-    diagnostic for, the model rejects it. -/
-theorem rejects_every_broken_schema (hfp : FpAgree) (s : SchemaDef) (hpl : CharEnumsPlain s.types)
-    (hv : enforcedViolations s ≠ []) : ∃ d, check s = .error d := by
+/-- **C08_full** (= `check_ok_iff_rules`): a schema is accepted exactly when it breaks no rule -/
+theorem C08_full (hfp : FpAgree) (s : SchemaDef) (hnr : NoTopLevelRef s.types) : check s = .ok () ↔ Rules s :=
+  check_ok_iff_enforced hfp s hnr
+
+/-- **rejects_every_broken_schema**: a schema that breaks any rule is rejected -/
+theorem rejects_every_broken_schema (hfp : FpAgree) (s : SchemaDef) (hv : ¬ Rules s) : ∃ d, check s = .error d := by
   cases h : check s with
   | error d => exact ⟨d, rfl⟩
-  | ok u => cases u; exact absurd (check_ok_no_violation hfp s hpl h) hv
-
-/-- the same, read forwards: an accepted schema breaks no enforced rule -/
-theorem check_ok_rules_partial (hfp : FpAgree) (s : SchemaDef) (hpl : CharEnumsPlain s.types)
-    (h : check s = .ok ()) : enforcedViolations s = [] :=
-  check_ok_no_violation hfp s hpl h
-
-/-- … and if in addition its data headers have the layout the runtime assumes, it breaks no rule at all -/
-theorem check_ok_rules_partial_data (hfp : FpAgree) (s : SchemaDef) (hpl : CharEnumsPlain s.types)
-    (hdata : (Spec.Rules.allLevels s).flatMap (Spec.Rules.dataLayoutViols s.types) = [])
-    (h : check s = .ok ()) : Rules s := by
-  unfold Rules violations
-  rw [check_ok_no_violation hfp s hpl h, hdata]
-  rfl
+  | ok u => cases u; exact absurd (check_ok_no_violation hfp s h) hv
 
 /-- **accepts_every_rule_abiding_schema**: a schema (as the parser produces it: `<ref>` only
-    inside composites) that breaks no enforced rule is accepted -/
-theorem accepts_every_rule_abiding_schema (hfp : FpAgree) (s : SchemaDef) (hpl : CharEnumsPlain s.types)
-    (hnr : NoTopLevelRef s.types) (h : enforcedViolations s = []) : check s = .ok () :=
-  no_violation_check_ok hfp s hpl hnr h
-
-/-- **check_ok_iff_rules_partial**: accepted ⇔ no rule that sbeppc has a diagnostic for is broken.
-    Hypotheses: `FpAgree` (floating-point literal acceptance of model and specification agree —
-    differential only), `CharEnumsPlain` (excludes finding (a)), `NoTopLevelRef` (AST shape). -/
-theorem check_ok_iff_rules_partial (hfp : FpAgree) (s : SchemaDef) (hpl : CharEnumsPlain s.types)
-    (hnr : NoTopLevelRef s.types) : check s = .ok () ↔ enforcedViolations s = [] :=
-  check_ok_iff_enforced hfp s hpl hnr
-
-/-- … and ⇔ `Rules s` when in addition the data headers have the layout the runtime assumes
-    (excludes finding (b)) -/
-theorem check_ok_iff_rules_partial_data (hfp : FpAgree) (s : SchemaDef) (hpl : CharEnumsPlain s.types)
-    (hnr : NoTopLevelRef s.types)
-    (hdata : (Spec.Rules.allLevels s).flatMap (Spec.Rules.dataLayoutViols s.types) = []) :
-    check s = .ok () ↔ Rules s := by
-  rw [check_ok_iff_enforced hfp s hpl hnr]
-  unfold Rules violations
-  rw [hdata]
-  simp
+    inside composites) that breaks no rule is accepted -/
+theorem accepts_every_rule_abiding_schema (hfp : FpAgree) (s : SchemaDef) (hnr : NoTopLevelRef s.types)
+    (h : Rules s) : check s = .ok () :=
+  no_violation_check_ok hfp s hnr h
 
 /-- **check_error_sound**: the reported class is a rule that is actually broken, at the entity
     where the model locates it -/
-theorem check_error_sound (hfp : FpAgree) (s : SchemaDef) (hpl : CharEnumsPlain s.types)
-    (hnr : NoTopLevelRef s.types) (d : Diag) (h : check s = .error d) : (d.cls, d.loc) ∈ enforcedViolations s :=
-  check_error_sound_all hfp s hpl hnr d h
+theorem check_error_sound (hfp : FpAgree) (s : SchemaDef) (hnr : NoTopLevelRef s.types) (d : Diag)
+    (h : check s = .error d) : (d.cls, d.loc) ∈ violations s :=
+  check_error_sound_all hfp s hnr d h
 
 /-- … and when `validate_types` (which iterates an `unordered_map`) fails, every diagnostic of the
     set the model names is such a broken rule -/
-theorem check_error_sound_hash_order (hfp : FpAgree) (s : SchemaDef) (hpl : CharEnumsPlain s.types)
-    (hp : parsePhase s = .ok ()) (d : Diag) (h : typesPhase s = .error d) :
-    ∀ w ∈ d.alts, w ∈ enforcedViolations s :=
-  check_error_sound_alts hfp s hpl hp d h
+theorem check_error_sound_hash_order (hfp : FpAgree) (s : SchemaDef) (hp : parsePhase s = .ok ()) (d : Diag)
+    (h : typesPhase s = .error d) : ∀ w ∈ d.alts, w ∈ violations s :=
+  check_error_sound_alts hfp s hp d h
 
-/-- **check_error_sound_partial**: a rejection means that some enforced rule really is broken -/
-theorem check_error_sound_partial (hfp : FpAgree) (s : SchemaDef) (hpl : CharEnumsPlain s.types)
-    (hnr : NoTopLevelRef s.types) (d : Diag) (h : check s = .error d) : enforcedViolations s ≠ [] := by
-  intro hv
-  rw [no_violation_check_ok hfp s hpl hnr hv] at h
-  cases h
-
-/-! ### the full-strength statement and its refutation on the current code -/
-
-/-- the property at full strength: accepted ⇔ no rule of the specification is broken -/
-def C08_full : Prop := ∀ s : SchemaDef, check s = .ok () ↔ Rules s
+/-! ### concrete instances (kernel-evaluated) -/
 
 def ty (n p : String) (len : Nat := 1) : Elem :=
   .type { name := n, prim := p, length := len, presence := .required, offset := none }
@@ -129,16 +85,14 @@ def msgHeader : Elem :=
   .composite "messageHeader" none
     [ty "blockLength" "uint16", ty "templateId" "uint16", ty "schemaId" "uint16", ty "version" "uint16"]
 
-/-- finding (b): a data header with a member in front of `length` — accepted, although the
-    generated code reads the length at offset 0 -/
+/-- a data header with a member in front of `length`: rejected since 5d34b3a, at the `length` member -/
 def witnessDataHeader : SchemaDef :=
   { package := "w", id := 1, version := 0, byteOrder := .little, headerType := "messageHeader",
     types := [msgHeader, .composite "Var" none [ty "pad" "uint16", ty "length" "uint8", ty "varData" "uint8" 0]],
     messages := [{ name := "M", id := 1, blockLength := none, fields := [], groups := [],
                    datas := [{ name := "d", id := 1, type := "Var" }] }] }
 
-/-- finding (a): a `char` constant given by `valueRef` to an enum whose encodingType is a
-    *named* `char` type — breaks no rule, rejected (`valueRef … cannot be represented`) -/
+/-- a `char` constant given by `valueRef` to an enum over a *named* `char` type: accepted since 57db3e7 -/
 def witnessCharEnum : SchemaDef :=
   { package := "w", id := 1, version := 0, byteOrder := .little, headerType := "messageHeader",
     types := [msgHeader, ty "CharT" "char",
@@ -148,34 +102,17 @@ def witnessCharEnum : SchemaDef :=
     messages := [] }
 
 set_option maxRecDepth 100000 in
-theorem witnessDataHeader_accepted : accepts witnessDataHeader = true := by decide +kernel
+example : (match check witnessDataHeader with
+           | .error d => d.cls == .dataHeaderLayout && d.loc == ["types", "Var", "length"]
+           | .ok _ => false) = true := by decide +kernel
 set_option maxRecDepth 100000 in
-theorem witnessDataHeader_breaks_rule :
-    violations witnessDataHeader = [(.dataHeaderLayout, ["types", "Var"])] := by decide +kernel
+example : violations witnessDataHeader = [(.dataHeaderLayout, ["types", "Var", "length"])] := by decide +kernel
 set_option maxRecDepth 100000 in
-theorem witnessCharEnum_rejected : accepts witnessCharEnum = false := by decide +kernel
-set_option maxRecDepth 100000 in
-theorem witnessCharEnum_valid : violations witnessCharEnum = [] := by decide +kernel
-
-/-- **C08_full_false**: on the current code the full-strength property does not hold -/
-theorem C08_full_false : ¬ C08_full := by
-  intro h
-  have h1 := (h witnessDataHeader).mp ((accepts_iff _).mp witnessDataHeader_accepted)
-  unfold Rules at h1
-  rw [witnessDataHeader_breaks_rule] at h1
-  cases h1
-
-/-- the second, independent refutation: a rule-abiding schema that is rejected -/
-theorem C08_full_false_rejects_valid : ¬ C08_full := by
-  intro h
-  have h1 := (h witnessCharEnum).mpr witnessCharEnum_valid
-  have h2 := (accepts_iff _).mpr h1
-  rw [witnessCharEnum_rejected] at h2
-  cases h2
+example : accepts witnessCharEnum = true ∧ violations witnessCharEnum = [] := by decide +kernel
 
 /-- the hypotheses of the partial theorems are satisfiable and non-trivial: a schema with a
     group, data, an enum, a set, a composite with a custom offset, a message with a custom
-    block length — accepted, no violation, `CharEnumsPlain` -/
+    block length — accepted, no violation -/
 def sampleX : TypeDef :=
   { name := "x", prim := "int32", length := 1, presence := .required, offset := some 4,
     minValue := some "-2147483648" }
@@ -203,13 +140,6 @@ example : accepts sample = true ∧ violations sample = [] := by decide +kernel
 example : NoTopLevelRef sample.types := by
   intro n r o a hm
   simp [sample, msgHeader, ty] at hm
-
-example : CharEnumsPlain sample.types := by
-  intro n enc o vs a hm
-  simp only [sample, msgHeader, ty, List.mem_cons, reduceCtorEq, Elem.enum.injEq, or_false,
-    false_or, List.not_mem_nil] at hm
-  obtain ⟨_, rfl, _⟩ := hm
-  decide +kernel
 
 /-- `FpAgree` holds on the boundary literals (kernel-evaluated; the full grid is checked
     against real sbeppc by the correspondence check) -/
